@@ -102,6 +102,10 @@ def particle(draw, L, L0, dt, hashv, border, radius):
         x0 -= L[ax] * round(x0 / L[ax])
         if abs(x0) < L[ax] / 2:
             x[ax] = x0
+            for j in range(3):
+                if j != ax:     # two arriving particles must not land on the same point of the face
+                    x[j] = min(max(x[j] + L0 * 1.2345e-7 * (1 + ((hashv * 7919 + j * 104729) % 1009) / 100.0),
+                                   -L[j] / 2), L[j] / 2)
     return {"x": x[0], "y": x[1], "z": x[2], "vx": v[0], "vy": v[1], "vz": v[2],
             # (two massless bodies make the merge formulas 0/0: masses > 0 whenever collisions are on)
             "m": draw(st.sampled_from([0.0, 1e-3, 1.0])) if (not radius and draw(st.integers(0, 3)) == 0)
@@ -229,6 +233,41 @@ def too_close(parts, L0, extra=None, period=None):
             if near(pts[i], pts[j]):
                 return True
     return False
+
+
+def coincidence_explains(s0, cur, cfg, R):
+    """The tree reported 'two particles with the same coordinates'.  That is its documented answer to an input outside
+    this property's domain - but only if two particles really are at the same point at an instant at which the tree
+    is rebuilt: at the start, after the first half drift or at the end of the step (free streaming of the pre-step
+    state s0, same double operations as leapfrog, compared modulo the box lengths), or in the current array `cur`
+    (mergers, restores; a flagged particle is re-inserted at y = 0 by a restore).  Otherwise the error is a finding."""
+    import numpy as np
+    L = np.array(cfg["L"])
+    periodic = cfg["boundary"] in ("periodic", "shear")
+
+    def dup(X, comps=(0, 1, 2)):
+        n = len(X)
+        for i in range(n):
+            d = np.abs(X[i + 1:] - X[i])
+            if periodic:
+                same = (d == 0) | (d == L[None, :])
+            else:
+                same = d == 0
+            if len(d) and same[:, list(comps)].all(axis=1).any():
+                return True
+        return False
+    inst = []
+    if s0 is not None and len(s0):
+        X0, V = R.pos(s0), R.vel(s0)
+        h = 0.5 * cfg["dt"]
+        Xh = X0 + h * V
+        inst += [X0, Xh, Xh + h * V]
+    if cur is not None and len(cur):
+        Xc = R.pos(cur).copy()
+        Xc[np.isnan(Xc[:, 1]), 1] = 0.0
+        inst.append(Xc)
+    comps = (0, 2) if cfg["boundary"] == "shear" else (0, 1, 2)     # (a shear wrap shifts y by a time-dependent offset)
+    return any(dup(X, comps) for X in inst)
 
 
 def new_sim(case):
@@ -462,7 +501,18 @@ def force_check(sim, cfg, R, ctx):
     ctx.cls("force_check")
 
 
+class SkipCase(Exception):
+    pass
+
+
 def run_history(case, ctx):
+    try:
+        return _run_history(case, ctx)
+    except SkipCase as e:
+        ctx.skip(str(e))
+
+
+def _run_history(case, ctx):
     import numpy as np
     from ..oracles import c13_collref as R, c15_treecheck as T
     from . import c13
@@ -605,6 +655,8 @@ def run_history(case, ctx):
             sim.update_tree()
             sim.process_messages()
         except RuntimeError as e:
+            if "same coordinates" in str(e) and coincidence_explains(None, a, cfg, R):
+                raise SkipCase("two particles at exactly the same point")
             raise Violation("tree update reported an error: %s" % e)
         if sim.N != n_alive:
             raise Violation("after a tree update N=%d but %d particles were not flagged as removed" % (sim.N, n_alive))
@@ -623,7 +675,7 @@ def run_history(case, ctx):
                 try:
                     sim.step()
                 except RuntimeError as e:
-                    if "same coordinates" in str(e):
+                    if "same coordinates" in str(e) and coincidence_explains(s0, R.snapshot(sim), cfg, R):
                         ctx.skip("two particles at exactly the same point")
                         return
                     raise Violation("library reported an error during a step: %s" % e)
@@ -731,7 +783,7 @@ def run_history(case, ctx):
                     os.unlink(path)
                 new.process_messages()
             except RuntimeError as e:
-                if "same coordinates" in str(e):
+                if "same coordinates" in str(e) and coincidence_explains(None, before, cfg, R):
                     # two particles at exactly the same point (a merger can land on another particle): the tree's
                     # documented error; the restored object is then not usable - not an input this property speaks about
                     ctx.skip("two particles at exactly the same point")
